@@ -1,6 +1,6 @@
 """Per-property check plans: which model configurations TLC explores and on
 which systems the emitted behaviours are replayed."""
-from .core import Report, tour_stage, walk_stage, chunk_stage, crash_stage, conc_stage
+from .core import Report, tour_stage, walk_stage, chunk_stage, crash_stage, conc_stage, fuzz_stage
 from . import core
 
 ALL4 = ["mem", "bolt", "multimem", "multios"]
@@ -37,6 +37,20 @@ def c02(tier, seed, work):
                             OpNames={"CreateBucket", "DeleteBucket", "PutObject", "PostObject", "GetObject",
                                      "HeadObject", "DeleteObject", "CopyObject", "ListObjects"}),
                ALL4, keys="rich", **st)
+    # keys that differ only in '/', '_' and '\\' (they flatten to the same name on the fs backends), with metadata
+    tour_stage(rep, work, "colliding-keys", "MC_Store",
+               store_consts(Buckets={"bkt1"}, KeySetName="coll", Bodies={"x1", "x2"},
+                            OpNames={"CreateBucket", "PutMeta", "PutMetaB", "GetObject", "HeadObject", "DeleteObject", "ListObjects"}),
+               ALL4, small=True, **st)
+    tour_stage(rep, work, "colliding-keys-single", "MC_Store",
+               store_consts(Buckets={"bkt1"}, KeySetName="coll", Bodies={"x1", "x2"}, CfgName="single",
+                            OpNames={"PutMeta", "PutMetaB", "GetObject", "HeadObject", "DeleteObject", "ListObjects"}),
+               ["singlemem", "singleos"], small=True, **st)
+    # keys that are prefixes of one another (key-value backends), every multi-delete subset
+    tour_stage(rep, work, "prefix-keys-kv", "MC_Store",
+               store_consts(Buckets={"bkt1"}, KeySetName="list", Bodies={"x1"},
+                            OpNames={"CreateBucket", "DeleteBucket", "PutObject", "GetObject", "DeleteObject", "DeleteMulti", "ListObjects"}),
+               ["mem", "bolt"], small=True, **st)
     if thorough:
         tour_stage(rep, work, "store-2b-3k", "MC_Store", store_consts(KeySetName="nest"), ALL4, small=True,
                    timeout=3000, **st)
@@ -287,7 +301,8 @@ def c17(tier, seed, work):
 
 
 ROUTE_OPTS = {"path": "", "host": "hostbucket", "base1": "bases=s3.test", "base2": "bases=s3.test+s3.alt:9000",
-              "basedots": "bases=.s3.test.", "hostandbase": "hostbucket,bases=s3.alt:9000"}
+              "basedots": "bases=.s3.test.", "hostandbase": "hostbucket,bases=s3.alt:9000",
+              "overlap": "bases=test+s3.test", "overlap2": "bases=alt:9000+x.alt:9000+s3.alt:9000"}
 ALL_OPS = CORE_OPS | {"GetLocation", "PostObject"}
 
 
@@ -296,13 +311,15 @@ def c16(tier, seed, work):
     # (1) resolution table: every Host x path of the table under every option combination
     for name, opts in ROUTE_OPTS.items():
         # (the setup writes are addressed in the style the configuration understands)
-        addr = {"host": "host:!s3.test", "hostandbase": "host:s3.alt:9000"}.get(name, "")
+        addr = {"host": "host:!s3.test", "hostandbase": "host:s3.alt:9000",
+                "overlap": "plainhost:neutral.invalid", "overlap2": "plainhost:neutral.invalid"}.get(name, "")
         tour_stage(rep, work, "resolve-" + name, "MC_Route", dict(CfgName=name), ["mem", "bolt"], opts=opts, addr=addr,
                    view=None, emit=None, invariants=["EmitInv", "Equiv"])
     # (2) every operation and sub-resource: the store, versioning and multipart tours replayed with
     # virtual-host addressing (and with extra slashes), expecting exactly the path-style replies
     modes = [("hostbucket", "host:!s3.test"), ("bases=s3.test+s3.alt:9000", "host:s3.alt:9000"),
-             ("bases=s3.test", "host:s3.test"), ("", "slashes"), ("bases=s3.test", "slashes")]
+             ("bases=s3.test", "host:s3.test"), ("", "slashes"), ("bases=s3.test", "slashes"),
+             ("bases=test+s3.test", "host:!s3.test")]
     for opts, addr in modes:
         tag = (opts or "path") + "/" + addr
         tour_stage(rep, work, "store " + tag, "MC_Store",
@@ -385,6 +402,11 @@ def c01(tier, seed, work):
         tour_stage(rep, work, "rw-single-" + tag, "MC_Store",
                    dict(consts, CfgName="single", OpNames=ops - {"CreateBucket"}), ["singlemem", "singleos"], opts=o,
                    keys="both", thorough=thorough, **st)
+    # keys that flatten to the same metadata file name on the fs backends must keep their own ETag and metadata
+    tour_stage(rep, work, "rw-colliding-keys", "MC_Store",
+               store_consts(Buckets={"bkt1"}, KeySetName="coll", Bodies={"x1", "x2"}, Ghosts=False,
+                            OpNames={"CreateBucket", "PutMeta", "PutMetaB", "GetObject", "HeadObject", "DeleteObject", "ListObjects"}),
+               ALL4, small=True, **st)
     rep.assumptions += [
         "bodies: one concrete byte string per (atom, tour) drawn from size classes 1 B .. 64 KiB+1 (thorough: .. 3 MiB), all byte values; "
         "the empty body is enumerated; 'all bodies' is sampled per class, the structural dimension is enumerated",
@@ -445,4 +467,24 @@ def c07(tier, seed, work):
     return rep
 
 
-PLANS = {"C11": c11, "C07": c07, "C15": c15, "C01": c01, "C12": c12, "C08": c08, "C16": c16, "C17": c17, "C02": c02, "C05": c05, "C03": c03, "C04": c04, "C13": c13, "C06": c06, "C14": c14}
+def c09(tier, seed, work):
+    rep = Report("C09", tier, seed)
+    thorough = tier == "thorough"
+    ev = 1 if thorough else 6
+    fuzz_stage(rep, work, "grammar-mem", {}, ["mem"], ["rich"], every=ev)
+    fuzz_stage(rep, work, "grammar-fs-bolt", {}, ["multimem", "bolt"], ["rich"], every=ev * 2)
+    fuzz_stage(rep, work, "grammar-options", {}, ["mem"], ["rich"], opts="hostbucket", every=ev * 4)
+    fuzz_stage(rep, work, "grammar-auto", {}, ["mem", "multimem"], ["plain"], opts="auto", every=ev * 4)
+    fuzz_stage(rep, work, "grammar-noversioning", {}, ["mem"], ["rich"], opts="noversioning", every=ev * 4)
+    if thorough:
+        fuzz_stage(rep, work, "grammar-os", {}, ["multios", "singlemem"], ["rich"], every=2)
+    rep.assumptions += [
+        "requests are generated from the abstract grammar (method x path shape x routed sub-resources, one further dimension "
+        "varied per request); coverage-guided byte-level fuzzing is not part of this check",
+        "panics and hangs are observations recorded into the trace; the specification (TraceReq) decides admissibility of replies",
+        "MethodNotAllowed may be answered with 400 (gofakes3's table) or 405",
+    ]
+    return rep
+
+
+PLANS = {"C11": c11, "C09": c09, "C07": c07, "C15": c15, "C01": c01, "C12": c12, "C08": c08, "C16": c16, "C17": c17, "C02": c02, "C05": c05, "C03": c03, "C04": c04, "C13": c13, "C06": c06, "C14": c14}
